@@ -307,6 +307,25 @@ impl Engine for C14 {
                 }
             }
         }
+        // values assembled in memory (never decoded): a seeded one and the default of each type
+        {
+            let mut vr = Rng::for_run(t.seed, t.run, "C14-built");
+            for (i, (bty, _)) in REG_TAGS.iter().enumerate() {
+                let mut built: Vec<Decoded> = Vec::new();
+                if let Some(d) = gen_built(&mut vr, bty, &GenCfg::small()) {
+                    built.push(d);
+                }
+                if let Some(d) = default_built(bty) {
+                    built.push(d);
+                }
+                for d in built {
+                    for (_w, v) in d.variants() {
+                        monitor_subjects.push((i, v));
+                    }
+                    monitor_subjects.push((i, d));
+                }
+            }
+        }
         for (i, d) in &monitor_subjects {
             let i = *i;
             {
